@@ -10,46 +10,46 @@ EXTENDS Laurent
 kc(x) == SPConst(x)
 M2(a, b, cc, d) == <<<<a, b>>, <<cc, d>>>>
 Diag4(a, b, cc, d) == <<<<a, SPZero, SPZero, SPZero>>, <<SPZero, b, SPZero, SPZero>>, <<SPZero, SPZero, cc, SPZero>>, <<SPZero, SPZero, SPZero, d>>>>
-O == SPZero
-I1 == SPOne
+Pz0 == SPZero
+Po1 == SPOne
 isin(j) == SPMul(ISP, SinH(j))                  \* i sin(angle_j/2)
 nisin(j) == SPNeg(isin(j))                      \* -i sin(angle_j/2)
 invsqrt2 == kc(CInvSqrt2)
 
-XM == M2(O, I1, I1, O)
-YM == M2(O, kc(CNegI), kc(CI), O)
-ZM == M2(I1, O, O, kc(CMinus))
+XM == M2(Pz0, Po1, Po1, Pz0)
+YM == M2(Pz0, kc(CNegI), kc(CI), Pz0)
+ZM == M2(Po1, Pz0, Pz0, kc(CMinus))
 HM == M2(invsqrt2, invsqrt2, invsqrt2, SPNeg(invsqrt2))
-SM == M2(I1, O, O, kc(CI))
-TM == M2(I1, O, O, kc(CW))
+SM == M2(Po1, Pz0, Pz0, kc(CI))
+TM == M2(Po1, Pz0, Pz0, kc(CW))
 SXM == LET p == kc(CMul(CHalf, CAdd(COne, CI))) m == kc(CMul(CHalf, CSub(COne, CI))) IN M2(p, m, m, p)
 RXM == M2(CosH(1), nisin(1), nisin(1), CosH(1))
 RYM == M2(CosH(1), SPNeg(SinH(1)), SinH(1), CosH(1))
-RZM == M2(Z(1, -1), O, O, Z(1, 1))
+RZM == M2(Z(1, -1), Pz0, Pz0, Z(1, 1))
 RHM == LET s == SPMul(kc(CMul(CNegI, CInvSqrt2)), SinH(1)) IN       \* -i/sqrt2 * sin
        PMScale(Z(1, 1), M2(SPAdd(CosH(1), s), s, s, SPAdd(CosH(1), SPNeg(s))))
-PHASEM == M2(I1, O, O, Z(1, 2))
+PHASEM == M2(Po1, Pz0, Pz0, Z(1, 2))
 \* U3(theta, phi, lambda) = RZ(phi) RY(theta) RZ(lambda) * e^{i(phi+lambda)/2};  z1 = theta, z2 = phi, z3 = lambda
-RZv(j) == M2(Z(j, -1), O, O, Z(j, 1))
+RZv(j) == M2(Z(j, -1), Pz0, Pz0, Z(j, 1))
 U3M == PMScale(SPMul(Z(2, 1), Z(3, 1)), PMMul(RZv(2), PMMul(RYM, RZv(3))))
-GPiM == M2(O, Z(1, -2), Z(1, 2), O)
-GPi2M == PMScale(invsqrt2, M2(I1, SPMul(kc(CNegI), Z(1, -2)), SPMul(kc(CNegI), Z(1, 2)), I1))
-CNOTM == <<<<I1, O, O, O>>, <<O, I1, O, O>>, <<O, O, O, I1>>, <<O, O, I1, O>>>>
-CZM == Diag4(I1, I1, I1, kc(CMinus))
-SWAPM == <<<<I1, O, O, O>>, <<O, O, I1, O>>, <<O, I1, O, O>>, <<O, O, O, I1>>>>
-ISWAPM == <<<<I1, O, O, O>>, <<O, O, kc(CI), O>>, <<O, kc(CI), O, O>>, <<O, O, O, I1>>>>
-CPHASEM == Diag4(I1, I1, I1, Z(1, 2))
-XXM == <<<<CosH(1), O, O, nisin(1)>>, <<O, CosH(1), nisin(1), O>>, <<O, nisin(1), CosH(1), O>>, <<nisin(1), O, O, CosH(1)>>>>
-YYM == <<<<CosH(1), O, O, isin(1)>>, <<O, CosH(1), nisin(1), O>>, <<O, nisin(1), CosH(1), O>>, <<isin(1), O, O, CosH(1)>>>>
+GPiM == M2(Pz0, Z(1, -2), Z(1, 2), Pz0)
+GPi2M == PMScale(invsqrt2, M2(Po1, SPMul(kc(CNegI), Z(1, -2)), SPMul(kc(CNegI), Z(1, 2)), Po1))
+CNOTM == <<<<Po1, Pz0, Pz0, Pz0>>, <<Pz0, Po1, Pz0, Pz0>>, <<Pz0, Pz0, Pz0, Po1>>, <<Pz0, Pz0, Po1, Pz0>>>>
+CZM == Diag4(Po1, Po1, Po1, kc(CMinus))
+SWAPM == <<<<Po1, Pz0, Pz0, Pz0>>, <<Pz0, Pz0, Po1, Pz0>>, <<Pz0, Po1, Pz0, Pz0>>, <<Pz0, Pz0, Pz0, Po1>>>>
+ISWAPM == <<<<Po1, Pz0, Pz0, Pz0>>, <<Pz0, Pz0, kc(CI), Pz0>>, <<Pz0, kc(CI), Pz0, Pz0>>, <<Pz0, Pz0, Pz0, Po1>>>>
+CPHASEM == Diag4(Po1, Po1, Po1, Z(1, 2))
+XXM == <<<<CosH(1), Pz0, Pz0, nisin(1)>>, <<Pz0, CosH(1), nisin(1), Pz0>>, <<Pz0, nisin(1), CosH(1), Pz0>>, <<nisin(1), Pz0, Pz0, CosH(1)>>>>
+YYM == <<<<CosH(1), Pz0, Pz0, isin(1)>>, <<Pz0, CosH(1), nisin(1), Pz0>>, <<Pz0, nisin(1), CosH(1), Pz0>>, <<isin(1), Pz0, Pz0, CosH(1)>>>>
 ZZM == Diag4(Z(1, -1), Z(1, 1), Z(1, 1), Z(1, -1))
-XYM == <<<<I1, O, O, O>>, <<O, CosH(1), isin(1), O>>, <<O, isin(1), CosH(1), O>>, <<O, O, O, I1>>>>
+XYM == <<<<Po1, Pz0, Pz0, Pz0>>, <<Pz0, CosH(1), isin(1), Pz0>>, <<Pz0, isin(1), CosH(1), Pz0>>, <<Pz0, Pz0, Pz0, Po1>>>>
 \* MS(phi0, phi1): z1 = phi0, z2 = phi1;  e^{-i(phi0+phi1)} = z1^-2 z2^-2
 ZZ2(a, b) == SPMul(Z(1, a), Z(2, b))
 MSM == PMScale(invsqrt2,
-        <<<<I1, O, O, SPMul(kc(CNegI), ZZ2(-2, -2))>>,
-          <<O, I1, SPMul(kc(CNegI), ZZ2(-2, 2)), O>>,
-          <<O, SPMul(kc(CNegI), ZZ2(2, -2)), I1, O>>,
-          <<SPMul(kc(CNegI), ZZ2(2, 2)), O, O, I1>>>>)
+        <<<<Po1, Pz0, Pz0, SPMul(kc(CNegI), ZZ2(-2, -2))>>,
+          <<Pz0, Po1, SPMul(kc(CNegI), ZZ2(-2, 2)), Pz0>>,
+          <<Pz0, SPMul(kc(CNegI), ZZ2(2, -2)), Po1, Pz0>>,
+          <<SPMul(kc(CNegI), ZZ2(2, 2)), Pz0, Pz0, Po1>>>>)
 IM == PMId(2)
 
 Row(name, nq, np, herm, poly) == [name |-> name, nq |-> nq, np |-> np, herm |-> herm, poly |-> poly]
